@@ -4,78 +4,196 @@ ENTRY = {'coq_dir': 'C19',
  'coq_deps': ['C18', 'C03', 'C02', 'C04'],
  'cases': {'quick': 11000, 'thorough': 300000},
  'harness_timeout': 3000,
- 'consts': ['C19_KAD_MAX_ADDRESSES', 'C19_KAD_DEFAULT_MAX_MESSAGE_SIZE', 'C19_IDENTIFY_PAYLOAD_SIZE',
-            'C19_BITSWAP_MAX_MESSAGE_SIZE', 'C19_WEBRTC_MAX_FRAME_SIZE', 'C03_MAX_PROTOCOLS', 'C03_MAX_LEN_BYTES',
-            'REPLICATION_FACTOR', 'MAX_INLINE_KEY_LENGTH', 'MULTIHASH_IDENTITY_CODE', 'PEER_ID_MULTIHASH_SIZE',
-            'MAX_NOISE_MSG_LEN', 'MAX_FRAME_LEN', 'BACKPRESSURE_BOUNDARY'],
+ 'consts': ['C19_KAD_MAX_ADDRESSES',
+            'C19_KAD_DEFAULT_MAX_MESSAGE_SIZE',
+            'C19_IDENTIFY_PAYLOAD_SIZE',
+            'C19_BITSWAP_MAX_MESSAGE_SIZE',
+            'C19_WEBRTC_MAX_FRAME_SIZE',
+            'C19_MDNS_BUFFER',
+            'C19_PING_PAYLOAD_SIZE',
+            'C03_MAX_PROTOCOLS',
+            'C03_MAX_LEN_BYTES',
+            'REPLICATION_FACTOR',
+            'MAX_INLINE_KEY_LENGTH',
+            'MULTIHASH_IDENTITY_CODE',
+            'PEER_ID_MULTIHASH_SIZE',
+            'MAX_NOISE_MSG_LEN',
+            'MAX_FRAME_LEN',
+            'BACKPRESSURE_BOUNDARY'],
  'nontrivial_min_trace': 6,
- 'rule': 'the driver generates byte strings and hands each to a WORKER PROCESS (same binary) that runs the real litep2p decoder under '
-         'catch_unwind with a #[global_allocator] counter (peak bytes allocated during the call) and answers with the completed case '
-         '(oracle dictionary for the curve check and digests) and the trace; a worker that dies (abort, stack overflow, failed '
-         'allocation) or is silent for 10 s yields ABORT / TIMEOUT and is replaced. Streams: (i) corpus/C19 witnesses; (ii) systematic: '
-         'for fixed seeds of every protobuf kind EVERY truncation offset and, for every length-delimited node, the declared length '
-         'replaced by each extreme (0/1/127/128/2^14/2^32-1/2^63/2^64-1 and 2^64-1-k); depth bombs 1/50/98..102/500; ls responses of '
-         '999/1000/1001 protocols and with every extreme entry length; every extreme frame length in natural/9/10/11-byte form under '
-         'limits {64, 70 KiB}; message-based multistream (webrtc_listener_negotiate, register_response) with every extreme in the first '
-         'message and after a valid header, every truncation; NOISE TRANSPORT (C02 case format and model): read-ahead factor 1 and 2, '
-         'the wire laid out so that a frame header starts d = 0..19, 64, 300 bytes before the end of the read-ahead window, that '
-         'header flipped to >= 65280 / to zero / high bit, garbage ciphertext, the frame before it damaged, frames dropped / duplicated '
-         '/ swapped, the wire cut 0..3 bytes into the header; SUBSTREAM CODECS (C04 format and model): every extreme under two limits '
-         'polled 6 times (re-polling after the error), Identity(n) for n around the initial buffer with every cut of small payloads; '
-         'STREAM-BASED SELECT (C03 mode 3): one real listener / dialer future against every truncation of header+proposal and every '
-         'extreme length (1/2/3/10-byte form) first and after a header; yamux frames of every type/flag with extreme lengths; multiaddr / '
-         'CID / prefix / peer-id truncations; (iii) seeded random cases from protobuf-aware tree generators with tree- and byte-level '
-         'mutation for Kademlia, keys, noise payload, identify, bitswap; multistream messages; framed streams; the whole multiaddr protocol '
-         'table with extreme inner lengths; CIDs; yamux streams; Noise / codec / select scenarios; round trips of VALUES through the '
-         'library encoders. In the thorough tier (or C19_FEATURES=1) a FEATURE WORKER (generated crate with litep2p features quic+webrtc, '
-         'harness/target-c19x) additionally runs the TLS certificate parser on a real certificate truncated at every third offset and '
-         'DER-length-damaged, and the WebRTC extract_framed_message + WebRtcMessage::decode. IDENTIFY and BITSWAP run through their '
-         'REAL event loops (Identify::run / Bitswap::run on a harness-fed TransportService: connection announced, the substream carries '
-         'the bytes, the public IdentifyEvent / BitswapEvent is observed). Trace = status, allocation verdict, capped collection size, '
-         'canonical dump of the raw prost struct and of the result (or the embedded property\'s trace); compared with the extracted Coq '
-         'model. prop_ok judges the implementation trace itself: returned (no PANIC/ABORT/TIMEOUT), allocation within the stated bound, '
-         'caps, round trips equal the value; for embedded kinds the C02 / C03 / C04 oracle',
- 'trusted_base': ['prost 0.13.5, multiaddr 0.18.2, cid 0.11.3, multihash 0.19.5 and unsigned-varint 0.8 are modelled from their '
-                  'sources as read (coq/common/Protobuf.v, coq/C19/Formats.v); the tie is the differential run, not a proof about '
-                  'those crates; prost\'s RECURSION_LIMIT = 100 and the multiaddr protocol table are transcribed',
-                  'oracle dictionary (same library calls the implementation makes) only for the ed25519 point check and the '
-                  'multihash digests of bitswap blocks',
-                  'opaque, checked only for "returns, no panic, allocation within the bound": the yamux crate behind '
-                  'litep2p::yamux::Connection (bound 4 MiB) and the TLS certificate parser (x509-parser / webpki / yasna; bound '
-                  '96|der| + 80 KiB)',
-                  'Noise transport, substream codecs and stream-based select reuse the models, oracles and scenario runners of '
-                  'C02 / C04 / C03 unchanged (coq/C19/E02.v, E03.v, E04.v with compile-time in-sync lemmas; harness sources included '
-                  'as text by harness/build.rs + src/c19/ext.rs); their allocation is pinned by their own traces (buffer sizes), the '
-                  'C19 allocation field only guards against runaway growth (256 MiB)',
-                  'the allocation counter is a #[global_allocator] wrapper: peak of (allocated - freed) bytes during the call; for '
-                  'the identify / bitswap event loops from handing over the substream onwards; bounds: 96 bytes per input byte + '
-                  '16 KiB; + 6 KiB per converted Kademlia peer (<= 2k+1 alive); frame receive max + 2|stream| + 16 KiB',
-                  'hooks: prost schema re-exports, KademliaPeer::verif_connection, bitswap prefix/block wrappers, '
-                  'verif_read_payload_size, Substream::new_verif, verif_identify_task / verif_bitswap_task (the real event loops on '
-                  'TransportService::verif_new), verif_tls_parse / verif_tls_generate (verif+quic), webrtc::verif re-exports'],
- 'level_text': 'Proof, for executable models of every decoder named by the property. Protobuf layer (prost): tokeniser with groups and '
-               'recursion limit, fuel S|input| proved sufficient and irrelevant, tokens + payload <= |input|, decode(encode) = id. Per '
-               'schema (Kademlia, identify, bitswap, noise payload, keys.proto, webrtc.proto): materialised size <= |input| and '
-               'decode(encode m) = m. litep2p post-processing: from_bytes keeps <= replication_factor peers; the nine message.rs encoders, '
-               'RemotePublicKey, bitswap Prefix, WebRtcMessage round-trip. Frame lengths: Substream receiver total, every buffer <= the '
-               'configured maximum (checked first), send/receive identity; read_payload_size; LengthDelimited <= 16383; Message::decode '
-               '<= 1000 protocols, fuel irrelevant, ls response round-trips; decode_multistream_message slices inside the payload and '
-               'refuses every length beyond it (incl. next to 2^64); WebRTC frames <= 16384 checked before buffering. Formats: '
-               'multihash <= 64 digest bytes, CID <= min(|input|, 104), multiaddr component loop total with all inner lengths '
-               'bounded by the remaining input. UTF-8: the table-3-7 acceptor is sound and complete against "concatenation of '
-               'shortest-form encodings of scalar values". Embedded (theorems of C02 / C03 / C04 apply to the reused models). '
-               'Panic-freedom of the Rust code is established by differential testing against these total functions.',
- 'level_note': 'Known finding class 1 (third party): yamux 0.13.10 computes `credit + DEFAULT_CREDIT` of a WindowUpdate|SYN frame in u32: '
-               'panic where overflow checks are compiled in, silent wrap in release builds (C19_yamux_syn_credit_refuted / _partial; '
-               'inputs containing the trigger are classed, the first-frame case is predicted exactly). Tested only (opaque): yamux '
-               'connection, TLS certificate parser, ed25519 point check, digests. Quick tier does not run the TLS / WebRTC kinds '
-               '(they need litep2p built with quic+webrtc: thorough tier or C19_FEATURES=1). Dropped: keys.proto PrivateKey (the '
-               'generated type is not referenced anywhere, not reachable from network input); yamux frame headers are parsed only by '
-               'the yamux crate, litep2p\'s own yamux/ directory is a control wrapper. ProtocolCodec::UnsignedVarint(None) has no '
-               'limit to enforce (Example C19_ex_unbounded_without_limit). TTL of a record is re-based on Instant::now() by the '
-               'encoder, so round trips use records without expiry. The allocation constants are measurements.',
+ 'rule': 'the driver generates byte strings and hands each to a WORKER PROCESS (same binary) that runs the real litep2p decoder under catch_unwind '
+         'with a #[global_allocator] counter (peak bytes allocated during the call) and answers with the completed case (oracle dictionary for the '
+         'curve check and digests) and the trace; a worker that dies (abort, stack overflow, failed allocation) or is silent for 10 s yields ABORT / '
+         'TIMEOUT and is replaced. The driver stops early once 12 cases have panicked / aborted / hung (each is a failing input). Streams: (i) '
+         'corpus/C19 witnesses (incl. mdns_counts.case, the witness of F-C19a); (ii) systematic: for fixed seeds of every protobuf kind EVERY '
+         'truncation offset and, for every length-delimited node, the declared length replaced by each extreme (0/1/127/128/2^14/2^32-1/2^63/2^64-1 '
+         'and 2^64-1-k); depth bombs 1/50/98..102/500; ls responses of 999/1000/1001 protocols and with every extreme entry length; every extreme '
+         'frame length in natural/9/10/11-byte form under limits {64, 70 KiB}; message-based multistream (webrtc_listener_negotiate, '
+         'register_response) with every extreme in the first message and after a valid header, every truncation; NOISE TRANSPORT (C02 case format '
+         'and model): read-ahead factor 1 and 2, the wire laid out so that a frame header starts d = 0..19, 64, 300 bytes before the end of the '
+         'read-ahead window, that header flipped to >= 65280 / to zero / high bit, garbage ciphertext, the frame before it damaged, frames dropped / '
+         'duplicated / swapped, the wire cut 0..3 bytes into the header; SUBSTREAM CODECS (C04 format and model): every extreme under two limits '
+         'polled 6 times (re-polling after the error), Identity(n) for n around the initial buffer with every cut of small payloads; STREAM-BASED '
+         'SELECT (C03 mode 3): one real listener / dialer future against every truncation of header+proposal and every extreme length (1/2/3/10-byte '
+         'form) first and after a header; yamux frames of every type/flag with extreme lengths; multiaddr / CID / prefix / peer-id truncations; '
+         '(iii) seeded random cases from protobuf-aware tree generators with tree- and byte-level mutation for Kademlia, keys, noise payload, '
+         'identify, bitswap; multistream messages; framed streams; the whole multiaddr protocol table with extreme inner lengths; CIDs; yamux '
+         'streams; Noise / codec / select scenarios; round trips of VALUES through the library encoders. In the thorough tier (or C19_FEATURES=1) a '
+         'FEATURE WORKER (generated crate with litep2p features quic+webrtc, harness/target-c19x) additionally runs the TLS certificate parser on a '
+         'real certificate truncated at every third offset and DER-length-damaged, and the WebRTC extract_framed_message + WebRtcMessage::decode. '
+         'IDENTIFY and BITSWAP run through their REAL event loops (Identify::run / Bitswap::run on a harness-fed TransportService: connection '
+         'announced, the substream carries the bytes, the public IdentifyEvent / BitswapEvent is observed). Trace = status, allocation verdict, '
+         "capped collection size, canonical dump of the raw prost struct and of the result (or the embedded property's trace); compared with the "
+         'extracted Coq model. prop_ok judges the implementation trace itself: returned (no PANIC/ABORT/TIMEOUT), allocation within the stated '
+         'bound, caps, round trips equal the value; for embedded kinds the C02 / C03 / C04 oracle. TRANSPORT-LEVEL KINDS (extension round): kind 22 '
+         'the real `crypto::noise::handshake()` in both roles (a) fed raw bytes: every combination of announced length '
+         '{0,1,31,32,33,47..49,63,64,79..81,95..97,255,256,65535} x data available {exact, one short, more} for the first message and '
+         '{0,47,48,64,65535} for the next, (b) against a SCRIPTED REMOTE built directly on snow (same parameters and resolver, fixed static key) '
+         'that completes a correct Noise XX exchange but puts arbitrary bytes into its identity message and announces that message with an arbitrary '
+         'length: a valid identity (signed for the remote static key by the generator), every truncation, every length-prefix lie of the protobuf '
+         'tree, foreign / missing signature or key, depth bombs, payloads up to 64.8 kB, declared length n-1 / n / n+1 / 0 / 65535; kind 23 the '
+         'WebSocket adapter BufferedStream over tokio-tungstenite with the default configuration: established stream in the server and the client '
+         'role (every opcode 0..15 x fin x masking, rsv bits, every length extreme incl. 16 MiB-1 / 16 MiB / 16 MiB+1 / 2^63 / 2^64-1-k in the 7-bit '
+         '/ 16-bit / 64-bit form with and without data behind it, control frames of 0/1/2/125/126 bytes, fragment sequences with interleaved ping / '
+         'text / missing start, every truncation of a valid stream, caller buffers of 1 / 3 / 64 / 4096 / 65536 bytes), after `accept_async` (the '
+         'HTTP upgrade request: every truncation, each header removed / doubled, LF-only, HTTP/1.0, POST, wrong version / key, 200 headers, 20 kB '
+         'header, 40 kB path, request and frames in one segment or cut anywhere) and after `client_async_tls` (the upgrade RESPONSE: a responder '
+         'carrier reads the request, derives the accept key and fills it into the marker of the case; status codes, wrong / missing accept key, '
+         'extensions, header mutations, masked frame from the server); kind 24 one mDNS datagram handed to a real Mdns object (hook '
+         'VerifMdns::on_datagram): a libp2p-style response truncated at every offset, PTR to ourselves / another service / other case, two PTR '
+         'answers in both orders, TXT shapes (several strings, duplicate keys, no =, empty value, bad UTF-8, 255 bytes), names with compression '
+         'pointers (backwards, to itself, forwards, into the header, loops through two names), 63/64-byte labels, 254/255-byte names, record counts '
+         'that lie (incl. 65535), rdlength lies, every record type 0..66 (0..110 thorough) with empty / short / long bodies, classes, queries, '
+         'datagrams longer than the 4096-byte buffer; kind 25 (feature worker) NoiseContext::with_prologue + first_message + '
+         'get_remote_peer_id(reply) for every announced length x amount of data; round trips 20/27 (the adapter writes chunks of 1..65536 bytes in '
+         "one role, the other role reads them back) and 20/28 (mDNS reply of instance A read by instance B gives A's listen addresses). Oracle "
+         "dictionary additions: kind 5 simple-dns parse summary, 6 text multiaddr parse, 7 ed25519 signature check against the scripted remote's "
+         'static key, 8 tungstenite upgrade accepted + bytes consumed. INVENTORY TIE: tools/gen_c19_sites.py scans src/**/*.rs on every check for '
+         'every decode / from_bytes / try_from / parse / read_ / varint / from_utf8 / third-party entry / with_capacity / vec![;n] / resize / '
+         'reserve / zeroed / split_to / advance / truncate / get_uN / range-slice token (239 sites) and every ProtocolCodec choice (7) -> '
+         'coq/gen/DecodeSites.v; coq/C19/Sites.v classifies each site and proves sites_match / codecs_match / codecs_all_bounded / maddr_codes_match '
+         '/ third-party limits, so a new or moved parse / allocation site, a protocol without frame limit, a new multiaddr protocol or a changed '
+         'default of tungstenite / snow / yamux / prost is a failed obligation',
+ 'trusted_base': ['prost 0.13.5, multiaddr 0.18.2, cid 0.11.3, multihash 0.19.5 and unsigned-varint 0.8 are modelled from their sources as read '
+                  "(coq/common/Protobuf.v, coq/C19/Formats.v); the tie is the differential run, not a proof about those crates; prost's "
+                  'RECURSION_LIMIT = 100 and the multiaddr protocol table are transcribed',
+                  'oracle dictionary (same library calls the implementation makes) only for the ed25519 point check and the multihash digests of '
+                  'bitswap blocks',
+                  'opaque, checked only for "returns, no panic, allocation within the bound": the yamux crate behind litep2p::yamux::Connection '
+                  '(bound 4 MiB) and the TLS certificate parser (x509-parser / webpki / yasna; bound 96|der| + 80 KiB)',
+                  'Noise transport, substream codecs and stream-based select reuse the models, oracles and scenario runners of C02 / C04 / C03 '
+                  'unchanged (coq/C19/E02.v, E03.v, E04.v with compile-time in-sync lemmas; harness sources included as text by harness/build.rs + '
+                  'src/c19/ext.rs); their allocation is pinned by their own traces (buffer sizes), the C19 allocation field only guards against '
+                  'runaway growth (256 MiB)',
+                  'the allocation counter is a #[global_allocator] wrapper: peak of (allocated - freed) bytes during the call; for the identify / '
+                  'bitswap event loops from handing over the substream onwards; bounds: 96 bytes per input byte + 16 KiB; + 6 KiB per converted '
+                  'Kademlia peer (<= 2k+1 alive); frame receive max + 2|stream| + 16 KiB',
+                  'hooks: prost schema re-exports, KademliaPeer::verif_connection, bitswap prefix/block wrappers, verif_read_payload_size, '
+                  'Substream::new_verif, verif_identify_task / verif_bitswap_task (the real event loops on TransportService::verif_new), '
+                  'verif_tls_parse / verif_tls_generate (verif+quic), webrtc::verif re-exports',
+                  'snow 0.9.6 (Noise state machine), tokio-tungstenite / tungstenite 0.27 HTTP upgrade parsers (httparse) and simple-dns 0.11.3 '
+                  'Packet::parse are opaque: run for real under the panic / watchdog / allocation checks; what the models need from them comes '
+                  'through the oracle dictionary (kinds 5 6 7 8) computed by the same library calls. The WebSocket FRAME layer of tungstenite is '
+                  'modelled from its source as read (coq/C19/Net.v ws_read) and tied by the differential run',
+                  'cryptographic assumption of the Noise models: bytes not produced by a Noise peer never decrypt (noise_raw predicts SnowError once '
+                  'the lengths are plausible), and a truncated AEAD message never authenticates',
+                  'new hooks (repo commit "verif hooks: a real Mdns object ..."): protocol::mdns::verif::VerifMdns (real Mdns::new, '
+                  'on_inbound_response / on_inbound_request / parse_packet; the 8-line dispatch of the recv_from arm of Mdns::start is transcribed '
+                  'in on_datagram), transport::websocket::verif_stream::VerifWsStream (the production BufferedStream built by accept_async / '
+                  'client_async_tls / from_raw_socket exactly as accept_connection / dial_peer do, over a caller-supplied socket)',
+                  'allocation bounds of the new kinds (measurements + the third-party defaults): Noise handshake 2 MiB (NoiseSocket buffers '
+                  '5*65535+..), WebSocket 16 MiB (tungstenite max_frame_size, reserved when the header arrives) + 8|stream| + 1 MiB, mDNS 96 bytes '
+                  'per datagram byte + 80 KiB'],
+ 'level_text': 'Proof, for executable models of every decoder named by the property. Protobuf layer (prost): tokeniser with groups and recursion '
+               'limit, fuel S|input| proved sufficient and irrelevant, tokens + payload <= |input|, decode(encode) = id. Per schema (Kademlia, '
+               'identify, bitswap, noise payload, keys.proto, webrtc.proto): materialised size <= |input| and decode(encode m) = m. litep2p '
+               'post-processing: from_bytes keeps <= replication_factor peers; the nine message.rs encoders, RemotePublicKey, bitswap Prefix, '
+               'WebRtcMessage round-trip. Frame lengths: Substream receiver total, every buffer <= the configured maximum (checked first), '
+               'send/receive identity; read_payload_size; LengthDelimited <= 16383; Message::decode <= 1000 protocols, fuel irrelevant, ls response '
+               'round-trips; decode_multistream_message slices inside the payload and refuses every length beyond it (incl. next to 2^64); WebRTC '
+               'frames <= 16384 checked before buffering. Formats: multihash <= 64 digest bytes, CID <= min(|input|, 104), multiaddr component loop '
+               'total with all inner lengths bounded by the remaining input. UTF-8: the table-3-7 acceptor is sound and complete against '
+               '"concatenation of shortest-form encodings of scalar values". Embedded (theorems of C02 / C03 / C04 apply to the reused models). '
+               'Panic-freedom of the Rust code is established by differential testing against these total functions. EXTENSION: WebSocket adapter '
+               '(BufferedStream over tungstenite frames): reader total, delivered bytes <= bytes arrived, a frame announced above the 16 MiB limit '
+               'ends the stream before its payload is awaited, whatever the adapter writes in one role (any 4-byte mask) the other role reads back; '
+               'Noise handshake: a handshake message is cut out exactly and is <= 65535 bytes, raw bytes never yield a peer, a peer is reported only '
+               'for a payload that decodes, carries a key passing the curve check and a signature the oracle confirms (its id is the id of THAT '
+               'key), a lying length prefix never yields a peer; mDNS: every reported address is the parse of a TXT value of an additional record '
+               'whose name is the first foreign PTR target, at most as many as TXT values, our own name is ignored. Inventory ties (sites, codecs, '
+               'multiaddr codes, third-party limits) are theorems over tables generated from the Rust / vendored sources.',
+ 'level_note': 'FIXED in this round: F-C19a (repo db7fd73): simple-dns reserves memory for the record counts announced by the DNS header, ~9.4 MiB '
+               'for a 12..60-byte mDNS datagram; litep2p now refuses headers that announce more than the datagram can hold (witness '
+               'corpus/C19/mdns_counts.case). Known finding class 1 (third party): yamux 0.13.10 computes `credit + DEFAULT_CREDIT` of a '
+               'WindowUpdate|SYN frame in u32: panic where overflow checks are compiled in, silent wrap in release builds '
+               '(C19_yamux_syn_credit_refuted / _partial; inputs containing the trigger are classed, the first-frame case is predicted exactly). '
+               'Tested only (opaque): yamux connection, TLS certificate parser, ed25519 point check, digests. Quick tier does not run the TLS / '
+               'WebRTC kinds (they need litep2p built with quic+webrtc: thorough tier or C19_FEATURES=1). Dropped: keys.proto PrivateKey (the '
+               'generated type is not referenced anywhere, not reachable from network input); yamux frame headers are parsed only by the yamux '
+               "crate, litep2p's own yamux/ directory is a control wrapper. ProtocolCodec::UnsignedVarint(None) has no limit to enforce (Example "
+               'C19_ex_unbounded_without_limit). TTL of a record is re-based on Instant::now() by the encoder, so round trips use records without '
+               'expiry. The allocation constants are measurements. NOT COVERED (class X of the inventory, 16 sites): the str0m side of WebRTC (first '
+               'datagram / STUN parse in on_socket_input, rtc.handle_input, WebRTC substream read buffer), url::Url::parse of a dialed /ws multiaddr '
+               '(multiaddr_into_url), the rustls handshake of wss:// and the whole QUIC packet layer (quinn). Tested only (opaque, class H, 19 '
+               'sites): yamux connection, TLS certificate parser, ed25519 point / signature checks, tungstenite HTTP upgrade request / response '
+               'parsers, simple-dns packet parser, snow. Copy of production logic in a hook: VerifMdns::on_datagram transcribes the 8-line dispatch '
+               'of Mdns::start (parse_packet -> has_flags(RESPONSE) -> on_inbound_response + discovered filter | on_inbound_request); the parsers '
+               'and handlers it calls are the real ones. Observations recorded in KNOWN_FINDINGS.txt (outside the property text): tungstenite '
+               'reserves the announced frame length up to its default 16 MiB limit on the header alone; a local listen address longer than 247 '
+               'characters makes Mdns::on_inbound_request panic on any query. Semantic disagreements of the new kinds (a wrong error class, wrongly '
+               'delivered bytes) break the correspondence but are a VIOLATION only when they show as panic / hang / allocation / cap / round-trip '
+               'failure in the implementation trace.',
  'assumptions': ['bytes are below 256 (other inputs are rejected by the case decoder)',
                  'byte strings and nested encodings are shorter than 2^64 (hypothesis wf_* of the round-trip theorems)',
                  '64-bit usize; cargo feature `rsa` off',
-                 'the replication factor of a case is <= 100000 and stream cases stay below ~20 kB (Noise scenarios are '
-                 'length-level) so that the extracted model runs in bounded stack']}
+                 'the replication factor of a case is <= 100000 and stream cases stay below ~20 kB (Noise scenarios are length-level) so that the '
+                 'extracted model runs in bounded stack',
+                 'mDNS user names are single alphanumeric labels and local listen addresses are short (<= 60 bytes): local configuration, not remote '
+                 'input',
+                 'Noise: see the cryptographic assumption in trusted_base (the scripted remote uses a fixed static key 0x07*32)'],
+ 'clause_map': [['every decoder that consumes bytes chosen by a remote peer ... returns a value or an error for every input (no endless loop)',
+                 'C19_pb_total, C19_pb_fuel_irrelevant, C19_pb_sub_total, C19_multistream_fuel, C19_webrtc_dialer_fuel, C19_frames_total, '
+                 'C19_read_payload_size_ok, C19_maddr_total, C19_maddr_fuel_irrelevant, C19_utf8_sound_complete, C19_ws_total, '
+                 'C19_noise_raw_rejected, C19_noise_length_lie_rejected (all model functions are total Gallina functions)',
+                 'every kind 1..25: the worker answers or the driver records TIMEOUT (watchdog 10 s) / ABORT; systematic truncation + length-lie '
+                 'streams'],
+                ['... without panicking',
+                 'C19_sites_match, C19_sites_kinds_ok (every parse / slice / cursor site of the crate is listed and driven or named as not covered)',
+                 'catch_unwind in the worker + process death detection: PANIC / ABORT traces fail prop_ok for every kind'],
+                ['... or allocating more than the configured message limit',
+                 'C19_pb_alloc_bound, C19_alloc_kad_message, C19_alloc_kad_peer_count, C19_kad_peers_cap, C19_alloc_multistream, '
+                 'C19_multistream_protocols_cap, C19_length_delimited_frame_len, C19_frame_alloc_checked_first, C19_frames_within_stream, '
+                 'C19_alloc_public_key, C19_alloc_noise_payload, C19_alloc_identify, C19_alloc_bitswap, C19_alloc_multihash, C19_alloc_cid, '
+                 'C19_alloc_maddr, C19_webrtc_frame_bounded, C19_webrtc_oversized_rejected_first, C19_alloc_webrtc_proto, C19_alloc_webrtc_message, '
+                 'C19_ws_delivered_bounded, C19_ws_oversized_checked_first, C19_noise_frame_bounded, C19_mdns_response_count, C19_codecs_match, '
+                 'C19_codecs_all_bounded, C19_third_party_limits',
+                 'peak-allocation counter (#[global_allocator]) around every decode call, compared with the per-kind bound in prop_ok; cap field '
+                 '(peers / protocols / frame length / delivered bytes / addresses)'],
+                ['negotiation messages',
+                 'C19_multistream_*, C19_roundtrip_multistream_protocols, C19_webrtc_decode_slice, C19_webrtc_truncated_rejected, '
+                 'C19_webrtc_dialer_fuel, C19_webrtc_listener_reply_bound + C03 theorems (embedded)',
+                 'kinds 2, 12, 13, 16 (C03 runner), 23 modes 1 / 3 (HTTP upgrade, opaque)'],
+                ['frame length prefixes',
+                 'C19_read_payload_size_ok, C19_frames_total, C19_frame_alloc_checked_first, C19_length_delimited_frame_len, '
+                 'C19_webrtc_frame_bounded, C19_ws_oversized_checked_first, C19_noise_frame_bounded + C02 / C04 theorems (embedded)',
+                 'kinds 3, 4, 14 (C02 runner), 15 (C04 runner), 19, 21 (yamux, opaque), 22, 23'],
+                ['handshake payloads',
+                 'C19_alloc_noise_payload, C19_roundtrip_noise_payload, C19_noise_identity_ok, C19_noise_length_lie_rejected',
+                 'kinds 6, 22 (real handshake() against a scripted snow peer), 25, 18 (TLS certificate, opaque)'],
+                ['public keys and peer ids',
+                 'C19_alloc_public_key, C19_roundtrip_public_key(_schema), C19_alloc_multihash + C18 model',
+                 'kinds 5, 10'],
+                ['Kademlia, identify and Bitswap messages and the multiaddresses inside them',
+                 'C19_alloc_kad_*, C19_kad_peers_cap, C19_alloc_identify, C19_identify_addresses_subset, C19_alloc_bitswap, '
+                 'C19_prefix_fields_in_range, C19_alloc_cid, C19_maddr_total, C19_alloc_maddr, C19_maddr_codes_match',
+                 'kinds 1, 7 (real Identify::run), 8 (real Bitswap::run), 9, 11, 17'],
+                ['(beyond the enumeration) mDNS datagrams',
+                 'C19_mdns_response_sound, C19_mdns_response_count, C19_mdns_own_name_ignored',
+                 'kind 24, corpus/C19/mdns_counts.case (F-C19a)'],
+                ["every message produced by the library's own encoders decodes to the value that was encoded",
+                 'C19_pb_roundtrip, C19_roundtrip_kad_schema, C19_roundtrip_kad, C19_roundtrip_find_node .. C19_roundtrip_get_providers_response '
+                 '(nine encoders), C19_roundtrip_multistream_protocols, C19_roundtrip_read_payload_size, C19_roundtrip_frames, '
+                 'C19_roundtrip_public_key, C19_roundtrip_noise_payload, C19_roundtrip_identify, C19_roundtrip_bitswap, C19_roundtrip_prefix, '
+                 'C19_roundtrip_webrtc_message, C19_ws_roundtrip',
+                 'kind 20 subs 1-9, 20-28: the value is given to the real encoder, its bytes to the real decoder, prop_ok compares with the value '
+                 '(ls response for every first-name length 1..130; WebSocket chunks; mDNS reply)']]}
